@@ -11,7 +11,10 @@ from types import SimpleNamespace as NS
 
 from engine import symx as H
 from harness import world as W
+import clematis.engine.orchestrator as ORCH
 import clematis.engine.orchestrator.core as OC
+from clematis.engine.stages.t3.policy import deliberate as _real_deliberate
+from clematis.engine.types import ProposedDelta
 import clematis.engine.apply as AP
 import clematis.engine.snapshot as S
 import clematis.engine.stages.t2.quality as Q
@@ -89,7 +92,28 @@ def _state_for(site):
     return st
 
 
+def _planner_with_deltas(ctx, state, bundle):
+    # documented hook orchestrator.t3_deliberate: the real rule-based plan plus two proposed deltas, so that T4 approves
+    # something and the store hand-off (batch, then per-delta fallback) is actually exercised
+    plan = _real_deliberate(bundle)
+    plan.deltas = [ProposedDelta("node", "n:a", "weight", 0.1, None, 0), ProposedDelta("edge", "e:a|supports|b", "weight", -0.05, None, 1)]
+    return plan
+
+
 def _run(site, inject, exc):
+    saved_hook = ORCH.__dict__.get("t3_deliberate")
+    if site == "store_apply":
+        ORCH.t3_deliberate = _planner_with_deltas
+    try:
+        return _run_inner(site, inject, exc)
+    finally:
+        if saved_hook is None:
+            ORCH.__dict__.pop("t3_deliberate", None)
+        else:
+            ORCH.t3_deliberate = saved_hook
+
+
+def _run_inner(site, inject, exc):
     W.reset_globals()
     cfg = _cfg_for(site, subsystem_on=inject)
     state = _state_for(site)
@@ -154,7 +178,7 @@ def _mask_apply(canon, site):
 
 @H.ob(model="none", quick=400, thorough=900, per_path=200,
       targets=("clematis/engine/orchestrator/core.py:Orchestrator.run_turn", "clematis/engine/apply.py:apply_changes", "clematis/engine/stages/t2/quality.py:apply_quality", "clematis/engine/snapshot.py:write_snapshot"),
-      stubs=("TurnSpy log/snapshot capture", "one declared fail-soft site replaced by a function raising the chosen exception class"),
+      stubs=("TurnSpy log/snapshot capture", "one declared fail-soft site replaced by a function raising the chosen exception class", "store_apply site: planner = real deliberate() + two proposed deltas through the orchestrator.t3_deliberate hook, store = double whose apply_deltas always raises"),
       bounds="one real run_turn on world W3/M3 (GEL graph with 2 edges present); failure site by index over 14 declared sites (boot load, GEL merge/split/promotion, reflection compute/log, LLM adapter build, hybrid rerank, fusion, MMR, quality trace, cache invalidation, store apply, snapshot sidecar); exception class by index over 3 (quick) / 8 (thorough) classes",
       split={"si": list(range(len(SITES)))},
       note="C20 a failure at any declared fail-soft site does not abort the turn: a TurnResult is returned and the canonical T1/T2/T4/apply/turn/health records equal those of the same turn with that subsystem switched off / idle")
@@ -180,7 +204,9 @@ def fail_soft(si: int, ei: int) -> bool:
     return H.verdict(ok)
 
 
-GARBAGE = [[1, 2, 3], "text", {"version_etag": ["x"]}, {"store": {"weights": [1, 2]}}, {"gel": {"edges": {"k": {"src": None, "dst": None, "weight": "w"}}}},
+GARBAGE = [{"gel": {"edges": {"x": {"src": "e1", "dst": "e2", "weight": 0.5, "attrs": None}}}},
+           {"gel": {"edges": {"x": {"src": "e1", "dst": "e2", "weight": 0.5, "attrs": [1]}}, "nodes": {"n": None}, "meta": None}},
+           [1, 2, 3], "text", {"version_etag": ["x"]}, {"store": {"weights": [1, 2]}}, {"gel": {"edges": {"k": {"src": None, "dst": None, "weight": "w"}}}},
            {"version_etag": 10 ** 30, "gel": {"edges": [{"src": 1, "dst": 2, "weight": float("nan")}]}}] + \
           ([None, [], 7, True, {}, {"version_etag": None}, {"store": "oops"}, {"store": {"weights": "abc"}}, {"gel": []}, {"gel": {"edges": "x", "nodes": 5}},
             {"gel": {"edges": {"k": "notadict"}}}, {"graph": 3}] if H.THOROUGH else [])
@@ -190,10 +216,10 @@ HEADERS = [None, {}, {"mode": "delta"}, {"mode": "delta", "delta_of": "zz", "eta
 @H.ob(model="none", quick=400, thorough=900, per_path=200,
       targets=("clematis/engine/snapshot.py:load_latest_snapshot", "clematis/engine/snapshot.py:_sanitize_gel_for_load", "clematis/engine/snapshot.py:_import_store_from_snapshot", "clematis/engine/orchestrator/core.py:Orchestrator.run_turn"),
       stubs=("snapshot._pick_latest_snapshot_path / os.path.isfile -> a snapshot 'exists'; snapshot._read_header_payload -> returns (header, payload) chosen by symbolic index from 6 headers x 6/18 garbage/foreign payloads, or raises",),
-      bounds="boot loader on corrupt / foreign snapshot content: payload by symbolic index over 6 (quick) / 18 (thorough) JSON values (wrong top-level types, wrong field types, NaN weight, huge ints), header over 6 shapes, reader raising or not; then a full run_turn on a state that has not booted yet",
+      bounds="boot loader on corrupt / foreign snapshot content: payload by symbolic index over 8 (quick) / 20 (thorough) JSON values (wrong top-level types, wrong field types, NaN weight, huge ints), header over 6 shapes, reader raising or not; GEL (graph.enabled) on or off, so that loaded GEL content is consumed by the turn's observe/tick; then a full run_turn on a state that has not booted yet",
       split={"hi": list(range(len(HEADERS)))},
       note="C20 snapshot boot loading on garbage never aborts the turn: the first turn of a not-yet-booted state completes with the same canonical T1/T2/T4/turn records as a boot without any snapshot")
-def boot_garbage(gi: int, hi: int, raises: bool) -> bool:
+def boot_garbage(gi: int, hi: int, raises: bool, gel_on: bool) -> bool:
     """
     pre: 0 <= gi < len(GARBAGE) and 0 <= hi < len(HEADERS)
     post: _
@@ -208,7 +234,10 @@ def boot_garbage(gi: int, hi: int, raises: bool) -> bool:
 
     def run(with_file):
         W.reset_globals()
-        cfg = W.make_cfg(copy.deepcopy(BASE), memo="c20boot")
+        over = copy.deepcopy(BASE)
+        if gel_on:
+            over["graph"] = {"enabled": True}
+        cfg = W.make_cfg(over, memo=("c20boot", True if gel_on else False))
         state = W.make_state()
         state["_boot_loaded"] = False
         ctx = W.make_ctx(cfg, turn_id=1, agent="A")
@@ -229,7 +258,14 @@ def boot_garbage(gi: int, hi: int, raises: bool) -> bool:
 
     try:
         a = run(True)
-        b = run(False)
+        key = True if gel_on else False
+        if key not in _BOOT_REF:
+            # boot without any snapshot: independent of the garbage chosen, computed once per process
+            _BOOT_REF[key] = run(False)
+        b = copy.deepcopy(_BOOT_REF[key])
     except Exception:
         return False
     return H.verdict(a is not None and a[0] == b[0] and a[1] == b[1] and a[2] is True)
+
+
+_BOOT_REF = {}
